@@ -3,6 +3,8 @@ package sim
 import (
 	"fmt"
 	"time"
+
+	"github.com/jwhited/corebgp"
 )
 
 // C11 — reconnection liveness and retry pacing after non-damping faults.
@@ -28,12 +30,19 @@ func runC11(w *World) {
 	if cr == 0 {
 		cr = time.Duration(w.Range(200, 30000, "crr")) * time.Millisecond
 	}
+	ihOpt, crOpt := ih, cr
+	if w.Chance(1, 8, "default-timers") {
+		// no WithIdleHoldTime / WithConnectRetryTime options: the documented defaults apply
+		ih, cr = corebgp.DefaultIdleHoldTime, corebgp.DefaultConnectRetryTime
+		ihOpt, crOpt = -1, -1
+		w.Probe("default-idle-hold-and-connect-retry")
+	}
 	passive := w.Chance(1, 4, "passive")
 	dir := DirOut
 	if passive {
 		dir = DirIn
 	}
-	s := NewStd1(w, Std1Opts{Dir: DirOut, Passive: passive, LocalHold: 90, RemoteHold: 90, IdleHold: ih, Retry: cr, Vary: true})
+	s := NewStd1(w, Std1Opts{Dir: DirOut, Passive: passive, LocalHold: 90, RemoteHold: 90, IdleHold: ihOpt, Retry: crOpt, Vary: true})
 	if s == nil {
 		return
 	}
